@@ -18,6 +18,7 @@
     (the closing call included) – `rotate_output` never returns normally for an output that silently lost bytes;
   * `stack_block_kept`: an exception out of `write_block()` / a flushing `buffer_*()` leaves the records buffered (the one
     just handed over included);
+  * `stack_reported_once`: after the report, further `write_block()` / `buffer_*()` calls on that output return normally;
   * `stack_recovery`: after a reported failure `rotate_output(healthy, false)` returns normally with the records still
     buffered, `write_block()` then writes header and block, and the next rotation closes a complete output
     `header ++ block ++ break` with nothing thrown.
@@ -372,6 +373,15 @@ theorem stack_recovery (s : St) (h : SInv s) (hf : s.w.failed = true) (hcur : s.
     simp only [step]
     rw [r3.2, given2, th2]
     simp
+
+/-- **Reported once.**  After the failure of the current output was reported, `write_block()` and flushing `buffer_*()` calls on it
+    return normally (their data is dropped with the output that is lost anyway) – the exception is not repeated call after call –
+    until the application rotates. -/
+theorem stack_reported_once (s : St) (hf : s.w.failed = true) (hc bc : Cuts) :
+    (step hdr enc s (.writeBlock hc bc)).2 = false ∧ (∀ r, (step hdr enc s (.bufferW r hc bc)).2 = false) ∧
+    (step hdr enc s (.writeBlock hc bc)).1.w.failed = true :=
+  ⟨(writeBlock_failed hdr enc s hc bc hf).1, fun r => (writeBlock_failed hdr enc { s with cur := s.cur ++ [r] } hc bc hf).1,
+   (writeBlock_failed hdr enc s hc bc hf).2⟩
 
 /-- the hypotheses of `stack_recovery` are met by a real history: a block whose flush the OS rejects -/
 example : let s := (run [1, 2] (fun rs => rs) St.init [.buffer 7, .writeBlock [] [(1, some .fail)]]).1
